@@ -69,7 +69,7 @@ func blsCombos() []blsCombo {
 
 func genCombo(t *rapid.T) blsCombo {
 	cs := blsCombos()
-	return cs[rapid.IntRange(0, len(cs)-1).Draw(t, "combo")]
+	return cs[uniformInt(t, 0, len(cs)-1, "combo")]
 }
 
 // mutateSigPoint returns a mutated encoding of a signature point and whether it denotes a
@@ -96,7 +96,7 @@ func mutateSigPoint(t *rapid.T, gi *GroupInfo, sig []byte) ([]byte, string) {
 		}
 		return mustMarshal(t, p), kind
 	case "truncate":
-		return append([]byte(nil), sig[:rapid.IntRange(0, len(sig)-1).Draw(t, "tl")]...), kind
+		return append([]byte(nil), sig[:uniformInt(t, 0, len(sig)-1, "tl")]...), kind
 	default:
 		return append(append([]byte(nil), sig...), rapid.SliceOfN(rapid.Byte(), 1, 5).Draw(t, "ext")...), kind
 	}
@@ -694,7 +694,7 @@ func c09CoSi(t *rapid.T, ev *evProp) {
 	case "msg":
 		mmsg, _ = mutateMsg(t, msg)
 	case "truncate":
-		msig = msig[:rapid.IntRange(0, len(msig)-1).Draw(t, "tl")]
+		msig = msig[:uniformInt(t, 0, len(msig)-1, "tl")]
 	case "extend":
 		msig = append(msig, rapid.SliceOfN(rapid.Byte(), 1, 4).Draw(t, "ext")...)
 	case "sigbitflip":
